@@ -72,7 +72,7 @@ Qed.
 Definition outstanding (s : st) : Prop :=
   exists u, In u (handed (gh s)) /\ ~ In (uid u) (done (gh s)).
 Definition local (l : label) : Prop :=
-  match l with LSend _ | LQueue _ | LFreeHold _ _ | LClaim _ => True | _ => False end.
+  match l with LSend _ | LQueue _ | LFreeHold _ _ | LClaim _ | LShutdown true _ _ => True | _ => False end.
 
 Lemma outstanding_mip s : IA s -> IC s -> outstanding s -> mip (ch s) = true.
 Proof.
@@ -108,7 +108,7 @@ Proof.
   assert (FinE : (forall k d, ~ In (ORel k d) [OErr]) /\ (forall u, In (OWatch u) [OErr] -> usteps u = [KPreimage]) /\
             arr (ch s) = arr (ch s) /\ mip (ch s) = true).
   { split; [intros k d [Hx|[]]; discriminate|split; [intros u [Hx|[]]; discriminate|split; [reflexivity|exact Hm]]]. }
-  intros Hl. destruct l as [v|it|d v|v| |need_commit v|held drop_all req_commit n v|v|v|id| | |a b c0| | ]; try destruct Hl; unfold step.
+  intros Hl. destruct l as [v|it|d v|v| |need_commit v|held drop_all req_commit n v|v|v|id| | |a b c0|oc| |lo sc v|nh]; try destruct Hl; unfold step.
   - (* LSend *)
     destruct (negb (is_ready (ch s)) || pd (ch s)); [exact FinE|].
     rewrite Hcc. apply Fin0; [reflexivity|exact Hm].
@@ -130,6 +130,8 @@ Proof.
     unfold handle_new_update. rewrite He. cbn [deferred cm on_gh on_mg on_ch paused].
     destruct (deferred (cm s)); cbn;
       (split; [intros k d [Hx|[]]; discriminate|split; [intros u [Hx|[]]; injection Hx as <-; reflexivity|split; reflexivity]]).
+  - (* LShutdown, local: refused while a monitor update is in progress *)
+    destruct lo; [|destruct Hl]. rewrite Hm, orb_true_r. exact FinE.
 Qed.
 
 Lemma frozen_while_pending c ls l :
@@ -202,7 +204,7 @@ Qed.
 Lemma step_ID s l : ID s -> l <> LDisconnect -> ID (fst (step s l)).
 Proof.
   intros D Hl. pose proof D as (A & B & P).
-  destruct l as [v|it|d v|v| |need_commit v|held drop_all req_commit n v|v|v|id| | |a b c0| | ]; try congruence; unfold step.
+  destruct l as [v|it|d v|v| |need_commit v|held drop_all req_commit n v|v|v|id| | |a b c0|oc| |lo sc v|nh]; try congruence; unfold step.
   - (* LSend *)
     destruct (negb (is_ready (ch s)) || pd (ch s)); [exact D|].
     destruct (can_commit (ch s)); [|exact D]. cbn [build_commitment]. apply push_ID. idt.
@@ -240,8 +242,13 @@ Proof.
   - (* LReestablish: a connected run never gets here with PEER_DISCONNECTED set *)
     rewrite P. exact D.
   - (* LFundingLocked *)
-    destruct (our_cr (ch s)); [exact D|]. destruct (mip (ch s)); [idt|]. destruct (pd (ch s)); idt.
+    destruct (our_cr (ch s)); [idt|]. destruct (mip (ch s)); [idt|]. destruct (pd (ch s)); idt.
   - idt.
+  - (* LShutdown *)
+    destruct (if lo then pd (ch s) || mip (ch s) else pd (ch s)); [exact D|].
+    destruct sc; [apply push_ID; idt|idt].
+  - (* LClosing *)
+    destruct (sh_local (sd s) && sh_remote (sd s) && negb (mip (ch s)) && negb (pd (ch s)) && nh); exact D.
 Qed.
 
 Definition connected (ls : list label) : Prop := ~ In LDisconnect ls.
@@ -337,7 +344,7 @@ Lemma F1_refuted :
     let s := reach (CNew 0 true false) ls in
     In (ORel k d) (snd (step s l)) /\ excl s l k /\ ~ released_ok k (fst (step s l)).
 Proof.
-  exists [LFundingLocked; LRecvChannelReady; LDisconnect], (LReestablish false false true), RChannelReady, 0.
+  exists [LFundingLocked true; LRecvChannelReady; LDisconnect], (LReestablish false false true), RChannelReady, 0.
   cbn. split; [left; reflexivity|split; [split; reflexivity|]].
   intros Hr. specialize (Hr (mkUpd 0 []) (or_introl eq_refl) ltac:(discriminate)). cbn in Hr. exact Hr.
 Qed.
